@@ -103,10 +103,12 @@ theorem confV_tok {T : Table} {k : Kind} {s : String} {f : Bool} (h : ConfV T k 
 theorem confV_list {T : Table} {k : Kind} {xs : List Val} (h : ConfV T k (.list xs)) : ∃ k', k = .list k' := by
   cases k <;> simp [ConfV] at h ⊢
 
+theorem wfRow_lossless {r : Row} (hw : wfRowB r = true) : losslessB r = true := by
+  simp only [wfRowB, Bool.and_eq_true] at hw; exact hw.1.1.1.1.2
+
 theorem lossless_sound {T : Table} {r : Row} {v : Val} (hw : wfRowB r = true) (hc : ConfRow T r v)
     (hg : guardPass r.guard v = false) : v = r.dflt := by
-  have hl : losslessB r = true := by
-    simp only [wfRowB, Bool.and_eq_true] at hw; exact hw.1.1.1.2
+  have hl : losslessB r = true := wfRow_lossless hw
   unfold losslessB at hl
   cases hgd : r.guard with
   | always => simp [guardPass, hgd] at hg
@@ -199,14 +201,14 @@ theorem alwaysPasses_sound {T : Table} {r : Row} {v : Val} (ha : alwaysPassesB r
 
 /-! ### what the reader has after decoding what the writer emitted -/
 
-def decodedOf (T : Table) (s : Bool) : List Row → List Val → List (String × Val)
+def decodedOf (T : Table) (se sd : Bool) : List Row → List Val → List (String × Val)
   | r :: rows, v :: fs =>
-    if emits s r v && reads s r then (r.member, strip T s v) :: decodedOf T s rows fs
-    else decodedOf T s rows fs
+    if emits se r v && reads sd r then (r.member, strip T (se || sd) v) :: decodedOf T se sd rows fs
+    else decodedOf T se sd rows fs
   | _, _ => []
 
-theorem keys_decodedOf (T : Table) (s : Bool) : ∀ rows fs k,
-    k ∈ (decodedOf T s rows fs).map Prod.fst → k ∈ rows.map (·.member)
+theorem keys_decodedOf (T : Table) (se sd : Bool) : ∀ rows fs k,
+    k ∈ (decodedOf T se sd rows fs).map Prod.fst → k ∈ rows.map (·.member)
   | [], _, k, h => by simp [decodedOf] at h
   | _ :: _, [], k, h => by simp [decodedOf] at h
   | r :: rows, v :: fs, k, h => by
@@ -215,9 +217,9 @@ theorem keys_decodedOf (T : Table) (s : Bool) : ∀ rows fs k,
     · simp only [List.map_cons, List.mem_cons] at h ⊢
       rcases h with h | h
       · exact Or.inl h
-      · exact Or.inr (keys_decodedOf T s rows fs k h)
+      · exact Or.inr (keys_decodedOf T se sd rows fs k h)
     · simp only [List.map_cons, List.mem_cons]
-      exact Or.inr (keys_decodedOf T s rows fs k h)
+      exact Or.inr (keys_decodedOf T se sd rows fs k h)
 
 theorem lookupV_append_of_not_mem (name : String) : ∀ (P Q : List (String × Val)),
     name ∉ P.map Prod.fst → lookupV name (P ++ Q) = lookupV name Q
@@ -244,12 +246,12 @@ theorem strip_simple {T : Table} {s : Bool} {d : Val} (h : simpleDflt d = true) 
   | list xs => cases xs <;> simp [simpleDflt] at h ⊢ <;> simp [strip, stripList]
   | node _ _ => simp [simpleDflt] at h
 
-/-- Reader side of one object: from the decoded members the attribute list is rebuilt exactly (in stripped mode:
-    with the detachable attributes at their defaults). -/
-theorem assemble_decoded (T : Table) (s : Bool) : ∀ (rows : List Row) (fs : List Val) (P : List (String × Val)),
+/-- Reader side of one object: from the decoded members the attribute list is rebuilt exactly (when writer or
+    reader run in stripped mode: with the detachable attributes at their defaults). -/
+theorem assemble_decoded (T : Table) (se sd : Bool) : ∀ (rows : List Row) (fs : List Val) (P : List (String × Val)),
     (rows.map (·.member)).Nodup → (∀ r ∈ rows, wfRowB r = true) → ConfF T rows fs →
     (∀ r ∈ rows, r.member ∉ P.map Prod.fst) →
-    assemble s (P ++ decodedOf T s rows fs) rows = .ok (stripFields T s rows fs)
+    assemble sd (P ++ decodedOf T se sd rows fs) rows = .ok (stripFields T (se || sd) rows fs)
   | [], [], P, _, _, _, _ => by simp [assemble, stripFields]
   | [], _ :: _, _, _, _, hc, _ => by simp [ConfF] at hc
   | _ :: _, [], _, _, _, hc, _ => by simp [ConfF] at hc
@@ -261,22 +263,27 @@ theorem assemble_decoded (T : Table) (s : Bool) : ∀ (rows : List Row) (fs : Li
     have hw := hwf r (List.mem_cons_self ..)
     have hw' := hw
     simp only [wfRowB, Bool.and_eq_true, Bool.or_eq_true, Bool.not_eq_true', beq_iff_eq] at hw'
-    obtain ⟨⟨⟨⟨⟨hreads, hreq⟩, _⟩, hstrip⟩, hsg⟩, hsimple⟩ := hw'
+    obtain ⟨⟨⟨⟨⟨⟨hreads, hreq⟩, _⟩, hstrip⟩, hsg⟩, hsimple⟩, hsr⟩ := hw'
     have hrP : r.member ∉ P.map Prod.fst := hP r (List.mem_cons_self ..)
-    have hrest : r.member ∉ (decodedOf T s rows fs).map Prod.fst :=
-      fun h => hnd'.1 (keys_decodedOf T s rows fs _ h)
+    have hrest : r.member ∉ (decodedOf T se sd rows fs).map Prod.fst :=
+      fun h => hnd'.1 (keys_decodedOf T se sd rows fs _ h)
+    -- the reader consults the row iff it is not (reader stripped ∧ detachable)
+    have hreads_iff : reads sd r = !(sd && r.encStrip) := by simp [reads, hreads, hstrip]
     simp only [assemble, decodedOf, stripFields]
-    by_cases he : (emits s r v && reads s r) = true
+    by_cases he : (emits se r v && reads sd r) = true
     · -- emitted and read: the reader finds the decoded child
       simp only [he, if_true]
-      have hrd : reads s r = true := by simp only [Bool.and_eq_true] at he; exact he.2
-      have hlk : lookupV r.member (P ++ (r.member, strip T s v) :: decodedOf T s rows fs) = some (strip T s v) := by
+      have hrd : reads sd r = true := by simp only [Bool.and_eq_true] at he; exact he.2
+      have hem : emits se r v = true := by simp only [Bool.and_eq_true] at he; exact he.1
+      have hlk : lookupV r.member (P ++ (r.member, strip T (se || sd) v) :: decodedOf T se sd rows fs)
+          = some (strip T (se || sd) v) := by
         rw [lookupV_append_of_not_mem _ _ _ hrP]; simp [lookupV]
       simp only [hrd, if_true, hlk]
-      have hns : (s && r.encStrip) = false := by
-        simp only [reads, hreads, Bool.true_and, Bool.not_eq_true', Bool.and_eq_false_iff] at hrd
-        rw [hstrip]; rcases hrd with h | h <;> simp [h]
-      have ih := assemble_decoded T s rows fs (P ++ [(r.member, strip T s v)]) hnd'.2
+      have hns : ((se || sd) && r.encStrip) = false := by
+        rw [hreads_iff] at hrd
+        simp only [emits, Bool.and_eq_true, Bool.not_eq_true'] at hem
+        cases se <;> cases sd <;> cases hE : r.encStrip <;> simp_all
+      have ih := assemble_decoded T se sd rows fs (P ++ [(r.member, strip T (se || sd) v)]) hnd'.2
         (fun r' hr' => hwf r' (List.mem_cons_of_mem _ hr')) hcf
         (by
           intro r' hr' hm
@@ -289,38 +296,39 @@ theorem assemble_decoded (T : Table) (s : Bool) : ∀ (rows : List Row) (fs : Li
       simp [Except.map, hns]
     · -- not available to the reader: default
       simp only [he, Bool.false_eq_true, if_false]
-      have hlk : (if reads s r = true then lookupV r.member (P ++ decodedOf T s rows fs) else none) = none := by
+      have hlk : (if reads sd r = true then lookupV r.member (P ++ decodedOf T se sd rows fs) else none) = none := by
         split
         · rw [lookupV_append_of_not_mem _ _ _ hrP]; exact lookupV_none_of_not_mem _ _ hrest
         · rfl
       rw [hlk]
-      have ih := assemble_decoded T s rows fs P hnd'.2
+      have ih := assemble_decoded T se sd rows fs P hnd'.2
         (fun r' hr' => hwf r' (List.mem_cons_of_mem _ hr')) hcf
         (fun r' hr' => hP r' (List.mem_cons_of_mem _ hr'))
       rw [ih]
       -- which value does the attribute get?
-      by_cases hrd : reads s r = true
-      · -- reader reads it, so the writer's guard suppressed it
-        have hns : (s && r.encStrip) = false := by
-          simp only [reads, hreads, Bool.true_and, Bool.not_eq_true', Bool.and_eq_false_iff] at hrd
-          rw [hstrip]; rcases hrd with h | h <;> simp [h]
+      by_cases hst : ((se || sd) && r.encStrip) = true
+      · -- some side is in stripped mode and the member is detachable: the reader's default
+        have hnreq : r.decRequired = false := by
+          rcases hsr with h | h
+          · simp only [Bool.and_eq_true] at hst; rw [hst.2] at h; cases h
+          · exact h
+        simp [hnreq, hst, Except.map]
+      · -- the writer's guard suppressed it
+        have hst' : ((se || sd) && r.encStrip) = false := by simpa using hst
+        have hrd : reads sd r = true := by
+          rw [hreads_iff]; cases se <;> cases sd <;> cases hE : r.encStrip <;> simp_all
         have hgp : guardPass r.guard v = false := by
-          simp only [emits, hns, Bool.not_false, Bool.true_and, hrd, Bool.and_true] at he
-          simpa using he
+          have : emits se r v = false := by simpa [hrd] using he
+          simp only [emits] at this
+          cases se <;> cases sd <;> cases hE : r.encStrip <;> simp_all
         have hvd : v = r.dflt := lossless_sound hw hcr hgp
         have hnreq : r.decRequired = false := by
           rcases hreq with h | h
           · exact h
           · have := alwaysPasses_sound h hcr
             rw [this] at hgp; cases hgp
-        simp only [hnreq, Bool.false_and, Bool.false_eq_true, if_false, Except.map, hns]
+        simp only [hnreq, Bool.false_and, Bool.false_eq_true, if_false, Except.map, hst']
         rw [hvd, strip_simple hsimple]
-      · -- stripped mode and the member is detachable
-        have hrd' : reads s r = false := by simpa using hrd
-        have hss : (s && r.encStrip) = true := by
-          simp only [reads, hreads, Bool.true_and, Bool.not_eq_false', ] at hrd'
-          rw [hstrip]; simpa using hrd'
-        simp [hrd', hss, Except.map]
 
 theorem findRow_of_mem : ∀ (rows : List Row) (r : Row), (rows.map (·.member)).Nodup → r ∈ rows →
     findRow rows r.member = some r
@@ -341,8 +349,7 @@ theorem emitted_ne_none {T : Table} {s : Bool} {r : Row} {v : Val} (hw : wfRowB 
   rcases hc with ⟨hv, ho⟩ | ⟨hne, hcv, _⟩
   · subst hv
     exfalso
-    have hl : losslessB r = true := by
-      simp only [wfRowB, Bool.and_eq_true] at hw; exact hw.1.1.1.2
+    have hl : losslessB r = true := wfRow_lossless hw
     simp only [emits, Bool.and_eq_true] at he
     have hg := he.2
     unfold losslessB at hl
@@ -350,17 +357,18 @@ theorem emitted_ne_none {T : Table} {s : Bool} {r : Row} {v : Val} (hw : wfRowB 
   · exact ⟨hne, hcv⟩
 
 mutual
-/-- **Generic round trip**: reading what the writer produced gives the value back (in stripped mode: the value
-    with its detachable parts removed) — for every conforming value at every nesting depth. -/
-theorem rt_val (T : Table) (s : Bool) (hWF : WF T) : ∀ (k : Kind) (v : Val), ConfV T k v →
-    dec T s k (enc T s v) = .ok (strip T s v)
+/-- **Generic round trip**: reading (reader mode `sd`) what the writer produced (writer mode `se`) gives the value
+    back — with its detachable parts removed iff writer or reader ran stripped — for every conforming value at every
+    nesting depth. -/
+theorem rt_val (T : Table) (se sd : Bool) (hWF : WF T) : ∀ (k : Kind) (v : Val), ConfV T k v →
+    dec T sd k (enc T se v) = .ok (strip T (se || sd) v)
   | k, .none, h => by cases k <;> simp [ConfV] at h
   | k, .tok t f, h => by
     have := confV_tok h; subst this; simp [enc, dec, strip]
   | k, .list xs, h => by
     obtain ⟨k', rfl⟩ := confV_list h
     simp only [ConfV] at h
-    simp only [enc, dec, strip, rt_list T s hWF k' xs h, Except.map]
+    simp only [enc, dec, strip, rt_list T se sd hWF k' xs h, Except.map]
   | k, .node c fs, h => by
     cases k with
     | leaf => simp [ConfV] at h
@@ -369,46 +377,103 @@ theorem rt_val (T : Table) (s : Bool) (hWF : WF T) : ∀ (k : Kind) (v : Val), C
       simp only [ConfV] at h
       obtain ⟨rfl, hf⟩ := h
       simp only [enc, dec]
-      rw [rt_members T s hWF (rowsOf T c) (rowsOf T c) fs
+      rw [rt_members T se sd hWF (rowsOf T c) (rowsOf T c) fs
         (fun r hr => findRow_of_mem _ r (hWF.nodup c) hr) (hWF.rowsWF c) hf]
-      have := assemble_decoded T s (rowsOf T c) fs [] (hWF.nodup c) (hWF.rowsWF c) hf (by simp)
+      have := assemble_decoded T se sd (rowsOf T c) fs [] (hWF.nodup c) (hWF.rowsWF c) hf (by simp)
       simp only [List.nil_append] at this
       simp only [this, Except.map, strip]
     | poly cs =>
       simp only [ConfV] at h
       obtain ⟨hcs, ⟨t, ht⟩, hf⟩ := h
       simp only [enc, ht, dec, hWF.tags c t ht, hcs, if_true]
-      rw [rt_members T s hWF (rowsOf T c) (rowsOf T c) fs
+      rw [rt_members T se sd hWF (rowsOf T c) (rowsOf T c) fs
         (fun r hr => findRow_of_mem _ r (hWF.nodup c) hr) (hWF.rowsWF c) hf]
-      have := assemble_decoded T s (rowsOf T c) fs [] (hWF.nodup c) (hWF.rowsWF c) hf (by simp)
+      have := assemble_decoded T se sd (rowsOf T c) fs [] (hWF.nodup c) (hWF.rowsWF c) hf (by simp)
       simp only [List.nil_append] at this
       simp only [this, Except.map, strip]
-theorem rt_list (T : Table) (s : Bool) (hWF : WF T) : ∀ (k : Kind) (xs : List Val), ConfL T k xs →
-    decList T s k (encList T s xs) = .ok (stripList T s xs)
+theorem rt_list (T : Table) (se sd : Bool) (hWF : WF T) : ∀ (k : Kind) (xs : List Val), ConfL T k xs →
+    decList T sd k (encList T se xs) = .ok (stripList T (se || sd) xs)
   | _, [], _ => rfl
   | k, v :: r, h => by
     simp only [ConfL] at h
-    simp only [encList, decList, rt_val T s hWF k v h.1, rt_list T s hWF k r h.2, Except.map, stripList]
-theorem rt_members (T : Table) (s : Bool) (hWF : WF T) (R : List Row) : ∀ (rows : List Row) (fs : List Val),
+    simp only [encList, decList, rt_val T se sd hWF k v h.1, rt_list T se sd hWF k r h.2, Except.map, stripList]
+theorem rt_members (T : Table) (se sd : Bool) (hWF : WF T) (R : List Row) : ∀ (rows : List Row) (fs : List Val),
     (∀ r ∈ rows, findRow R r.member = some r) → (∀ r ∈ rows, wfRowB r = true) → ConfF T rows fs →
-    decMembers T s R (encFields T s rows fs) = .ok (decodedOf T s rows fs)
+    decMembers T sd R (encFields T se rows fs) = .ok (decodedOf T se sd rows fs)
   | [], [], _, _, _ => rfl
   | [], _ :: _, _, _, hc => by simp [ConfF] at hc
   | _ :: _, [], _, _, hc => by simp [ConfF] at hc
   | r :: rows, v :: fs, hfind, hwf, hc => by
     simp only [ConfF] at hc
     obtain ⟨hcr, hcf⟩ := hc
-    have ih := rt_members T s hWF R rows fs (fun r' hr' => hfind r' (List.mem_cons_of_mem _ hr'))
+    have ih := rt_members T se sd hWF R rows fs (fun r' hr' => hfind r' (List.mem_cons_of_mem _ hr'))
       (fun r' hr' => hwf r' (List.mem_cons_of_mem _ hr')) hcf
     simp only [encFields, decodedOf]
-    by_cases hem : emits s r v = true
+    by_cases hem : emits se r v = true
     · simp only [hem, if_true, Bool.true_and]
       simp only [decMembers, hfind r (List.mem_cons_self ..)]
-      by_cases hrd : reads s r = true
+      by_cases hrd : reads sd r = true
       · obtain ⟨_, hcv⟩ := emitted_ne_none (hwf r (List.mem_cons_self ..)) hcr hem
-        simp only [hrd, if_true, rt_val T s hWF r.kind v hcv, ih, Except.map]
+        simp only [hrd, if_true, rt_val T se sd hWF r.kind v hcv, ih, Except.map]
       · simp only [hrd, Bool.false_eq_true, if_false, ih]
     · simp only [hem, Bool.false_eq_true, if_false, Bool.false_and, ih]
+end
+
+/-! ### The stripped writer = the full writer's output minus the detachable members, at every depth (C18) -/
+
+mutual
+theorem enc_strip_val (T : Table) (hWF : WF T) : ∀ (k : Kind) (v : Val), ConfV T k v →
+    enc T true v = stripW T k (enc T false v)
+  | k, .none, h => by cases k <;> simp [ConfV] at h
+  | k, .tok t f, h => by
+    have := confV_tok h; subst this; simp [enc, stripW]
+  | k, .list xs, h => by
+    obtain ⟨k', rfl⟩ := confV_list h
+    simp only [ConfV] at h
+    simp only [enc, stripW, enc_strip_list T hWF k' xs h]
+  | k, .node c fs, h => by
+    cases k with
+    | leaf => simp [ConfV] at h
+    | list _ => simp [ConfV] at h
+    | node c0 =>
+      simp only [ConfV] at h
+      obtain ⟨rfl, hf⟩ := h
+      simp only [enc, stripW]
+      rw [enc_strip_fields T hWF (rowsOf T c) (rowsOf T c) fs
+        (fun r hr => findRow_of_mem _ r (hWF.nodup c) hr) (hWF.rowsWF c) hf]
+    | poly cs =>
+      simp only [ConfV] at h
+      obtain ⟨hcs, ⟨t, ht⟩, hf⟩ := h
+      simp only [enc, ht, stripW, hWF.tags c t ht]
+      rw [enc_strip_fields T hWF (rowsOf T c) (rowsOf T c) fs
+        (fun r hr => findRow_of_mem _ r (hWF.nodup c) hr) (hWF.rowsWF c) hf]
+theorem enc_strip_list (T : Table) (hWF : WF T) : ∀ (k : Kind) (xs : List Val), ConfL T k xs →
+    encList T true xs = stripWL T k (encList T false xs)
+  | _, [], _ => rfl
+  | k, v :: r, h => by
+    simp only [ConfL] at h
+    simp only [encList, stripWL, enc_strip_val T hWF k v h.1, enc_strip_list T hWF k r h.2]
+theorem enc_strip_fields (T : Table) (hWF : WF T) (R : List Row) : ∀ (rows : List Row) (fs : List Val),
+    (∀ r ∈ rows, findRow R r.member = some r) → (∀ r ∈ rows, wfRowB r = true) → ConfF T rows fs →
+    encFields T true rows fs = stripWM T R (encFields T false rows fs)
+  | [], [], _, _, _ => rfl
+  | [], _ :: _, _, _, hc => by simp [ConfF] at hc
+  | _ :: _, [], _, _, hc => by simp [ConfF] at hc
+  | r :: rows, v :: fs, hfind, hwf, hc => by
+    simp only [ConfF] at hc
+    obtain ⟨hcr, hcf⟩ := hc
+    have ih := enc_strip_fields T hWF R rows fs (fun r' hr' => hfind r' (List.mem_cons_of_mem _ hr'))
+      (fun r' hr' => hwf r' (List.mem_cons_of_mem _ hr')) hcf
+    simp only [encFields]
+    by_cases hg : guardPass r.guard v = true
+    · have hemF : emits false r v = true := by simp [emits, hg]
+      obtain ⟨_, hcv⟩ := emitted_ne_none (hwf r (List.mem_cons_self ..)) hcr hemF
+      by_cases hs : r.encStrip = true
+      · simp [emits, hg, hs, stripWM, hfind r (List.mem_cons_self ..), ih]
+      · have hs' : r.encStrip = false := by simpa using hs
+        simp [emits, hg, hs', stripWM, hfind r (List.mem_cons_self ..), ih, enc_strip_val T hWF r.kind v hcv]
+    · have hg' : guardPass r.guard v = false := by simpa using hg
+      simp [emits, hg', ih]
 end
 
 end Basyx.Codec
